@@ -992,6 +992,21 @@ pub fn c19(ctx: &mut Ctx) {
             }
         }
     }
+    // string tables of the API: Display of TermError / Order (ParseError is exercised by the C09 runner)
+    for (e, msg) in [("NotVar", "the term is not a variable"), ("NotAbs", "the term is not an abstraction"), ("NotApp", "the term is not an application")] {
+        let line = format!("errmsg term {}", e);
+        let r = ctx.op(&line);
+        ctx.nontrivial(&line);
+        let want: Vec<String> = msg.chars().map(|c| (c as u32).to_string()).collect();
+        if r != format!("{} {}", want.len(), want.join(" ")) {
+            ctx.fail("Display of a TermError is not the documented message", &[line]);
+        }
+    }
+    for o in ORDERS.iter() {
+        let line = format!("ordname {}", order_name(*o));
+        ctx.op(&line);
+        ctx.nontrivial(&line);
+    }
     // macros
     let n = if ctx.thorough { 5000 } else { 800 };
     for _ in 0..n {
